@@ -190,7 +190,7 @@ func (e *Env) loadContractFile(path string) error {
 		case strings.HasPrefix(body, "iface "):
 			finish()
 			name := strings.TrimSpace(strings.TrimPrefix(body, "iface "))
-			cur = &Contract{Func: "iface:" + name, Pkg: pkg, Loops: map[int]*LoopSpec{}, File: rel, Line: lineNo}
+			cur = &Contract{Func: "iface:" + pkg + "." + name, Pkg: pkg, Loops: map[int]*LoopSpec{}, File: rel, Line: lineNo}
 			e.contracts[cur.Func] = cur
 		case strings.HasPrefix(body, "pure "):
 			finish()
